@@ -532,7 +532,7 @@ func main() {
 	seen := map[string]bool{}
 	nontrivial := 0
 
-	nconf, nrand := 10, 14
+	nconf, nrand := 16, 14
 	if tier == "thorough" {
 		nconf, nrand = 60, 40
 	}
